@@ -15,6 +15,7 @@ import RosuModel.Model.SuspicionWire
 import RosuModel.Model.StackingWire
 import RosuModel.Model.LifeWire
 import RosuModel.Model.FiniteWire
+import RosuModel.Model.PerfCalcWire
 
 open Rosu
 
@@ -67,6 +68,7 @@ def handle (line : String) : String :=
   | ["LIFE", mode, objs, sig, hist] => Lifetime.handleLife mode objs sig hist
   | "GSQ" :: mode :: args => GenState.handleGSQ mode args
   | "C09" :: args => Finite.handleFinite args
+  | "PP" :: args => PerfCalc.handlePP args
   | _ => "bad-op"
 
 partial def loop (h : IO.FS.Stream) (out : IO.FS.Stream) : IO Unit := do
